@@ -23,7 +23,7 @@ func (i Duration) MarshalJSON() ([]byte, error) {
 
 func (i *Duration) UnmarshalJSON(b []byte) error {
 	var l = len(b)
-	if l <= 2 {
+	if l <= 2 || b[0] != '"' || b[l-1] != '"' {
 		return ErrInvalidDuration
 	}
 	var dur, err = time.ParseDuration(string(b[1 : l-1]))
